@@ -44,6 +44,7 @@ deriving DecidableEq, Repr, Inhabited
 def directiveAccount : Str := "account ".toList
 def directiveApplyAccount : Str := "apply account ".toList
 def directiveCommodity : Str := "commodity ".toList
+def fourBlanks : Str := [' ', ' ', ' ', ' ']
 
 /-! ### `strings` helpers on char lists -/
 
@@ -100,18 +101,27 @@ def isDigitOrSign (c : Char) : Bool := isDigit c || c == '-' || c == '+'
 def isSign (c : Char) : Bool := c == '-' || c == '+'
 def isNumChar (c : Char) : Bool := isDigit c || c == '.' || c == ',' || c == '_'
 
-/-- `findAmountEnd`: optional `(`, a run that is neither digit/sign nor blank nor `)`, signs,
-    number characters, optional `)`. -/
-def findAmountEnd (s : Str) : Nat :=
-  let (i0, r0) := match s with | '(' :: r => (1, r) | _ => (0, s)
+/-- `if i < len(s) && s[i] == ')' { i++ }`. -/
+def closeParen : Str → Nat
+  | ')' :: _ => 1
+  | _ => 0
+
+/-- `findAmountEnd` after the optional `(`: a run that is neither digit/sign nor blank nor `)`,
+    signs, number characters, optional `)`. -/
+def amountEndFrom (r0 : Str) : Nat :=
   let w := (r0.takeWhile fun c => !isDigitOrSign c && c != ' ' && c != ')').length
   let r1 := r0.drop w
   let g := (r1.takeWhile isSign).length
   let r2 := r1.drop g
   let d := (r2.takeWhile isNumChar).length
   let r3 := r2.drop d
-  let p := match r3 with | ')' :: _ => 1 | _ => 0
-  i0 + w + g + d + p
+  w + g + d + closeParen r3
+
+/-- `findAmountEnd`. -/
+def findAmountEnd (s : Str) : Nat :=
+  match s with
+  | '(' :: r => 1 + amountEndFrom r
+  | _ => amountEndFrom s
 
 structure Parts where
   indent : Nat
@@ -175,7 +185,7 @@ def determineContext (line : Str) (ch : Nat) (trig : Str) : Ctx :=
   if hasPrefix line directiveAccount then .account else
   if hasPrefix line directiveCommodity then .commodity else
   if hasPrefix line directiveApplyAccount then .account else
-  if hasPrefix line "    ".toList || hasPrefix line ['\t'] then determinePostingContext line col else
+  if hasPrefix line fourBlanks || hasPrefix line ['\t'] then determinePostingContext line col else
   match line with
   | c :: _ => if isDigit c then .payee else .date
   | [] => .date
